@@ -297,11 +297,11 @@ def suites(tier, seed):
               rule="the read path of the real I/O loop (Inner::read_from_stream over FrameBuffer): hundreds of frames readable in one wake-up are all handed on in that wake-up"),
         Suite("frames-then-fault-in-the-loop", "machine", lambda: mg.frames_then_fault_cases(Rng(seed + 37)), monitor=lambda c, il, sl: None, nontrivial=lambda c, il: True, canon=mg.canon_nondet, shrink=False,
               rule="complete frames (a server Connection.Close, deliveries, a server Channel.Close, a reply) followed in the same wake-up by EOF / an I/O error / an unparsable frame: the frames ahead of the fault are acted on before the fault is reported (exact diff against the Lean Conn model; the oracle for what 'acted on' means is C05 / C08)"),
-        Suite("bytes-behind-open-ok-e2e", "hbe2e", lambda: [Case("t%d" % k, ["run 0 0 silent 900 tail=%s,%d" % (tail, k)], {"keep_prefix": 0}) for k in ([0, 1, 3, 7] if tier == "quick" else [0, 1, 2, 3, 4, 5, 6, 7])],
+        Suite("bytes-behind-open-ok-e2e", "hbe2e", lambda: [Case("t%d" % k, ["run 0 0 silent 900 tail=%s,%d" % (tail, k)], {"keep_prefix": 0}) for k in ([0, 1, 3, 7, 8, 9, 20, len(tail) // 2] if tier == "quick" else [0, 1, 2, 3, 4, 5, 6, 7, 8, 9, 12, 15, 16, 20, len(tail) // 2 - 1, len(tail) // 2])],
               monitor=lambda c, il, sl: None if any(l.startswith("close err ServerClosedConnection 320") for l in il) else (
                   "the server sent a heartbeat and Connection.Close(320) right behind OpenOk, the first %s bytes in the same write as OpenOk: the client must end with ServerClosedConnection 320, got %s" % (c.ops[0].split(",")[-1], [l for l in il if l.startswith(("open", "close", "death"))]), "c06-handshake-boundary"),
               nontrivial=lambda c, il: True, compare=False, shards=8, timeout=120,
-              rule="end to end: the bytes of the frames that follow OpenOk arrive partly in the same read as OpenOk (0-7 bytes of a heartbeat frame), the rest 300 ms later: the decoder state survives the switch from handshake to steady state - the frames the client acts on depend only on the bytes"),
+              rule="end to end: the bytes of the frames that follow OpenOk arrive partly or wholly in the same read as OpenOk (0-7 bytes of a heartbeat frame, the whole heartbeat, the heartbeat and part or all of the Connection.Close behind it; finding D18), the rest 300 ms later: the decoder state survives the switch from handshake to steady state - the frames the client acts on depend only on the bytes"),
         Suite("framebuf-huge", "framebuf", lambda: gen_huge(tier, seed), monitor=monitor, nontrivial=nontrivial, shrink=False, compare=False, timeout=600,
               rule="one body frame of 2^24-8, 2^24-7, 2^24+1 payload bytes (thorough: 20 000 000, 2^25+3) between two small frames, readable at once and in four pieces: every frame is delivered (no upper limit on a well-formed frame's size); monitor only - the list model is not run on 17 MB"),
         Suite("framebuf-large", "framebuf", lambda: gen_large(tier, seed), monitor=monitor, nontrivial=nontrivial, shrink=False, shards=4,
